@@ -86,17 +86,32 @@ def _post(kind):
             step = max(1, xa.size // 16)
             worst = 0.0
             bad = None
+            fn = {"cdf": R.cdf, "pdf": R.pdf, "icdf": R.icdf}[kind]
             for j in range(0, xa.size, step):
                 one = float(np.asarray(meth(float(xa[j]), float(gs[j])), float))
                 v = float(call.result[j])
                 if one == v or (np.isnan(one) and np.isnan(v)):
                     continue
-                e = abs(one - v) / max(abs(v), 1e-300)
+                # derived tolerance: the user's callable may differ by an ulp between a Python float and an array
+                # element; allow what +-4 ulp of each dependence value does to the reference at this point (a quantile
+                # next to a dependent location, a far-tail probability) plus 1e-12 - a diverging code path is far larger
+                pj = {k: float(np.broadcast_to(np.asarray(val, float), xa.shape)[j]) for k, val in p.items()}
+                sens = 0.0
+                with np.errstate(all="ignore"):
+                    r0 = float(fn(fam, float(xa[j]), **pj))
+                    for k in pj:
+                        if not isinstance(dimspec["params"].get(k), dict):
+                            continue
+                        for sgn in (-1.0, 1.0):
+                            q = dict(pj)
+                            q[k] = pj[k] + sgn * 4 * np.spacing(abs(pj[k]))
+                            r1 = float(fn(fam, float(xa[j]), **q))
+                            if np.isfinite(r1) and np.isfinite(r0):
+                                sens = max(sens, abs(r1 - r0))
+                e = max(0.0, abs(one - v) - 2 * sens) / max(abs(v), 1e-300)
                 if e > worst:
-                    worst, bad = e, (float(xa[j]), float(gs[j]), v, one)
-            # (1e-9: the user's callable may differ by an ulp between a Python float and an array element, which a
-            # far-tail probability amplifies; a diverging code path is orders of magnitude larger)
-            c.check("cond.vector-eq-scalar", worst <= 1e-9, f"conditional {fam}.{kind}: vectorised call differs from one pair at a time", family=fam, witness=bad, rel=worst)
+                    worst, bad = e, (float(xa[j]), float(gs[j]), v, one, sens)
+            c.check("cond.vector-eq-scalar", worst <= 1e-12, f"conditional {fam}.{kind}: vectorised call differs from one pair at a time", family=fam, witness=bad, rel=worst)
 
     return post
 
